@@ -9,9 +9,9 @@ READY = True
 META = {
     "technique": "Lean 4 proof (model of ops::coerce/add/sub/mul/int_div/rem/pow/neg/int_as_value over the four integer representations: exact-or-error, total on the signed 128-bit range, width independent, Euclid law) + differential run of the model against the real engine + exact-integer/rational oracle",
     "category": "proof",
-    "text": "The full statement is FALSE on the pinned code at exactly one operand, proved as `C08_counterexample : ¬ C08_full` (unary minus of 2^127 stored as u128 returns +2^127; kept as a recorded known finding because an existing snapshot pins it); everything else is proved as `C08_holds_partial` with that operand as an explicit hypothesis of the unary-minus exactness clause only. Kernel-checked theorems about the Lean model of minijinja's integer arithmetic (every representation U64/I64/U128/I128, every well-formed payload): a successful + - * // % ** or unary minus returns the mathematically exact integer, the operation succeeds whenever operands and result fit the signed 128-bit range (divisor non-zero, exponent in [0,2^32)), the outcome depends only on the mathematical operands and not on the stored width, and // and % satisfy q*b + r = a with 0 <= r < |b|; the float remainder algorithm (fmod plus |b| when negative) is proved to be the Euclidean remainder on scaled integers. The model is tied to /repo by running ~2*10^5 (quick) operand pairs from the boundary zoo and boundary-biased random pairs, written as literals and as i64/u64/i128/u128/f64 context values, through Expression::eval and template rendering and through the compiled Lean model; an independent Python oracle (unbounded ints, Fractions) adjudicates exactness, totality, width independence, the Euclid law for floats and exact int/float comparison.",
+    "text": "The full statement is FALSE on the pinned code at exactly one operand, proved as `C08_counterexample : ¬ C08_full` (unary minus of 2^127 stored as u128 returns +2^127; kept as a recorded known finding because an existing snapshot pins it); everything else is proved as `C08_holds_partial` with that operand as an explicit hypothesis of the unary-minus exactness clause only. Kernel-checked theorems about the Lean model of minijinja's integer arithmetic (every representation U64/I64/U128/I128, every well-formed payload): a successful + - * // % ** or unary minus returns the mathematically exact integer, the operation succeeds whenever operands and result fit the signed 128-bit range (divisor non-zero, exponent in [0,2^32)), the outcome depends only on the mathematical operands and not on the stored width, and // and % satisfy q*b + r = a with 0 <= r < |b|; the float remainder algorithm (fmod plus |b| when negative) is proved to be the Euclidean remainder on scaled integers. Integer literals: the Lean model of Tokenizer::eat_number (radix prefix, scanning state machine, `_` separators, u64 fast path / u128 fallback, float detection) is proved to read every well-formed spelling - either prefix case, any separators not at the end, any leading zeros, canonical digits of v in radix 2/8/10/16 - as the token for v, stored as the well-formed representation of v, and to reject values >= 2^128 (lit_scan_radix, lit_scan_dec, lit_value, lit_value_dec, lit_repr, lit_too_large). The model is tied to /repo by running ~2*10^5 (quick) operand pairs from the boundary zoo and boundary-biased random pairs, written as literals and as i64/u64/i128/u128/f64 context values, through Expression::eval and template rendering and through the compiled Lean model; an independent Python oracle (unbounded ints, Fractions) adjudicates exactness, totality, width independence, the Euclid law for floats and exact int/float comparison.",
     "design_ref": "DESIGN.md §3 C08",
-    "level_note": "Trusted: Lean kernel; hand transcription of ops.rs (coerce, int_as_value, add, sub, mul, int_div, rem, pow, neg) and of i128::try_from(Value) into MJ/Model/Num.lean, validated differentially on every generated integer case; Rust's i128::checked_* are modelled by their documented contract (exact result or None). Float arithmetic (IEEE division/rounding in f64::div_euclid, the rounded addition in rem_euclid, `as f64` casts) and int/float comparison are not modelled in Lean: they are covered by the exact rational oracle only.",
+    "level_note": "Trusted: Lean kernel; hand transcription of ops.rs (coerce, int_as_value, add, sub, mul, int_div, rem, pow, neg) and of i128::try_from(Value) into MJ/Model/Num.lean, validated differentially on every generated integer case; Rust's i128::checked_* are modelled by their documented contract (exact result or None). The lexer model is tied by running the real tokenizer on ~10^4 (quick) spellings, edge texts and random texts (token kind, value and consumed length compared). Upper-case hex digits, float literal values, bool operands, the abs/int/float/round/sum filters and the odd/even/divisibleby tests are covered by the oracle streams only (no Lean model). Float arithmetic (IEEE division/rounding in f64::div_euclid, the rounded addition in rem_euclid, `as f64` casts) and int/float comparison are not modelled in Lean: they are covered by the exact rational oracle only.",
 }
 
 P63, P64, P127, P128 = 1 << 63, 1 << 64, 1 << 127, 1 << 128
@@ -29,11 +29,57 @@ def f_of_bits(h):
     return struct.unpack(">d", struct.pack(">Q", int(h, 16)))[0]
 
 
+INT_VAR_FORMS = ("u64", "i64", "u128", "i128", "su64", "si64", "su128", "si128",
+                 "i8", "i16", "i32", "isize", "u8", "u16", "u32", "usize")
+
+
+def unwrap_literal(text):
+    """`(-X)` / `-X` / `X` -> (negated, X)"""
+    if text.startswith("(") and text.endswith(")"):
+        text = text[1:-1]
+    if text.startswith("-"):
+        return True, text[1:]
+    return False, text
+
+
+def value_of_int_spelling(text):
+    """independent reading of an integer literal: prefix -> radix, `_` ignored"""
+    neg, body = unwrap_literal(text)
+    radix = {"0b": 2, "0o": 8, "0x": 16}.get(body[:2].lower(), 10)
+    digits = (body[2:] if radix != 10 else body).replace("_", "")
+    v = int(digits, radix)
+    return -v if neg else v
+
+
+def value_of_float_spelling(text):
+    neg, body = unwrap_literal(text)
+    v = float(body.replace("_", ""))
+    return -v if neg else v
+
+
+class BadCase(Exception):
+    pass
+
+
 def parse_operand(tok):
+    """-> (kind 'i'|'f', value, form)"""
     form, val = tok.split(":", 1)
     if form in ("flit", "f64"):
         return ("f", f_of_bits(val), form)
-    return ("i", int(val), form)
+    if form == "fsrc":
+        text, bits = val.rsplit("=", 1)
+        v = f_of_bits(bits)
+        if struct.pack(">d", value_of_float_spelling(text)) != struct.pack(">d", v):
+            raise BadCase(f"generator: float spelling {text} does not denote {bits}")
+        return ("f", v, form)
+    if form == "src":
+        text, dec = val.rsplit("=", 1)
+        if value_of_int_spelling(text) != int(dec):
+            raise BadCase(f"generator: integer spelling {text} does not denote {dec}")
+        return ("i", int(dec), form)
+    if form == "bool" or form == "lit" or form in INT_VAR_FORMS:
+        return ("i", int(val), form)
+    raise BadCase(f"unknown operand form {form}")
 
 
 def in_i128(x):
@@ -108,13 +154,17 @@ def check_int(r, case, op, A, B, impl):
     forms = A[2] + ("," + B[2] if B else "")
     reg = region(a) + ("," + region(b) if B else "")
     res, _, rend = impl.partition("|render=")
+    has_bool = "bool" in forms.split(",")
     if rend:
         r.oracle_failure(case, f"template prints {rend!r} but Expression::eval gives {res}", f"int:{op}:render:{reg}")
     if res == "panic":
         r.oracle_failure(case, "panic", f"int:{op}:panic:{reg}")
         return "panic"
+    if res == "err:SyntaxError":
+        r.oracle_failure(case, "a well-formed number literal is rejected by the lexer/parser", "literal:syntax-error")
+        return "err"
     if res.startswith("err:"):
-        if defined and int_required(op, a, b, exact):
+        if defined and int_required(op, a, b, exact) and not has_bool:
             r.oracle_failure(case, f"error {res} although operands and exact result {exact} fit the signed 128-bit range", f"int:{op}:spurious-error:{reg}")
         return "err"
     if res.startswith("i:"):
@@ -200,13 +250,117 @@ def check_cmp(r, case, op, A, B, impl):
     return "exact"
 
 
+OPS_FILTER = ("f_abs", "f_int", "f_float", "f_round", "f_sum", "t_odd", "t_even", "t_divby")
+
+
+def same_float(res, want):
+    return res.startswith("f:") and (f_of_bits(res[2:]) == want or (want != want and f_of_bits(res[2:]) != f_of_bits(res[2:])))
+
+
+def check_filter(r, case, op, A, B, impl):
+    """filters and tests must agree with the operators: exact, or an error where the operator may fail"""
+    res, _, rend = impl.partition("|render=")
+    name = op[2:]
+    if rend:
+        r.oracle_failure(case, f"template prints {rend!r} but Expression::eval gives {res}", f"filter:{name}:render")
+    if res == "panic":
+        r.oracle_failure(case, "panic", f"filter:{name}:panic")
+        return "panic"
+    if res == "err:SyntaxError":
+        r.oracle_failure(case, "a well-formed number literal is rejected by the lexer/parser", "literal:syntax-error")
+        return "err"
+    a = A[1]
+
+    def int_result(exact, required, what):
+        if res.startswith("err:"):
+            if required:
+                r.oracle_failure(case, f"error {res}, but {what} = {exact} fits the signed 128-bit range", f"filter:{name}:spurious-error")
+            return "err"
+        if res != "i:%d" % exact:
+            r.oracle_failure(case, f"returned {res}, {what} = {exact}", f"filter:{name}:wrong-value")
+            return "bad"
+        return "exact"
+
+    def bool_result(constrained, want):
+        if not constrained:
+            return "unconstrained"
+        if res != ("b:1" if want else "b:0"):
+            r.oracle_failure(case, f"returned {res}, the operators give {want}", f"filter:{name}:wrong-value")
+            return "bad"
+        return "exact"
+
+    if A[0] == "i":
+        if op == "f_abs":        # x|abs == -x for negative x, x otherwise
+            return int_result(abs(a), in_i128(a) and in_i128(abs(a)), "|x|")
+        if op in ("f_int", "f_round"):
+            return int_result(a, in_i128(a), "x")
+        if op == "f_float":
+            if not same_float(res, float(a)):
+                r.oracle_failure(case, f"returned {res}, the correctly rounded float is {float(a)!r}", "filter:float:wrong-value")
+                return "bad"
+            return "exact"
+        if op == "f_sum":        # [a, b]|sum == a + b
+            b = B[1]
+            return int_result(a + b, in_i128(a) and in_i128(b) and in_i128(a + b), "a + b")
+        if op == "t_odd":        # x is odd  <=>  x % 2 == 1 (where % yields a value)
+            return bool_result(in_i128(a), a % 2 == 1)
+        if op == "t_even":
+            return bool_result(in_i128(a), a % 2 == 0)
+        if op == "t_divby":      # x is divisibleby(y)  <=>  x % y == 0 (where % yields a value)
+            b = B[1]
+            return bool_result(in_i128(a) and in_i128(b) and b != 0, b != 0 and a % b == 0)
+    else:
+        x = Fraction(a)
+        if op == "f_abs":
+            want = abs(a)
+        elif op == "f_float":
+            want = a
+        elif op == "f_round":    # half away from zero
+            n = (abs(x) + Fraction(1, 2)).__floor__()
+            want = float(n) if a >= 0 else -float(n)
+        elif op == "f_int":
+            t = int(a)           # truncation, exact
+            if not in_i128(t):
+                return "saturates"   # `as i128` saturates outside the type: not an operator, not judged
+            return int_result(t, True, "trunc(x)")
+        else:
+            return "other"
+        if not same_float(res, want):
+            r.oracle_failure(case, f"returned {res}, expected {want!r}", f"filter:{name}:wrong-value")
+            return "bad"
+        return "exact"
+    return "other"
+
+
+def check_lex(r, case, text, impl, model):
+    """the lexer alone: real tokenizer against the Lean model of eat_number; for well-formed
+    literals also against the independent reading"""
+    norm = impl
+    if impl.startswith("float:"):
+        bits, _, end = impl[6:].partition("@")
+        norm = "float@" + end
+        try:
+            want = float(text[:int(end)].replace("_", ""))
+            if struct.pack(">d", want) != struct.pack(">d", f_of_bits(bits)):
+                r.oracle_failure(case, f"float literal {text[:int(end)]} lexed to {f_of_bits(bits)!r}, correctly rounded value is {want!r}", "literal:float-value")
+        except ValueError:
+            pass
+    if model is not None and norm != model:
+        r.model_disagreement(case, impl, model)
+    return "lexed"
+
+
 def py_spec(case):
     """the exact-integer verdict in the same notation as the Lean driver's third column"""
     f = case.split(" ")
     op = f[0]
+    if op == "lex":
+        return "-"
     A = parse_operand(f[1])
     B = parse_operand(f[2]) if len(f) > 2 else None
-    if op in OPS_CMP or A[0] != "i" or (B is not None and B[0] != "i"):
+    if op not in OPS_BIN + ("neg",) or A[0] != "i" or (B is not None and B[0] != "i"):
+        return "-"
+    if A[2] == "bool" or (B is not None and B[2] == "bool"):
         return "-"
     a, b = A[1], (B[1] if B else None)
     defined, exact = int_exact(op, a, b)
@@ -235,13 +389,17 @@ def judge_core(case, impl):
     B = parse_operand(f[2]) if len(f) > 2 else None
     allint = A[0] == "i" and (B is None or B[0] == "i")
     key = None
-    if op in OPS_CMP:
+    if op in OPS_FILTER:
+        stream = "filter"
+        out = check_filter(c, case, op, A, B, impl)
+    elif op in OPS_CMP:
         stream = "cmp-int" if allint else "cmp-float"
         out = check_cmp(c, case, op, A, B, impl)
     elif allint:
         stream = "int"
         out = check_int(c, case, op, A, B, impl)
-        key = (op, A[1], B[1] if B else None)
+        if A[2] != "bool" and (B is None or B[2] != "bool"):
+            key = (op, A[1], B[1] if B else None)
     else:
         stream = "float-euclid"
         out = check_float_euclid(c, case, op, A, B, impl)
@@ -251,9 +409,11 @@ def judge_core(case, impl):
 def explained_by_neg_defect(case, impl):
     """the case has an operand spelled `-2^127` and the engine's answer is exactly right for the
     operand the recorded defect produces instead (+2^127 as u128)"""
-    if DEFECT_LIT not in case.split(" ")[1:]:
+    toks = case.split(" ")
+    hit = [t.startswith(("lit:", "src:")) and parse_operand(t)[1] == -P127 for t in toks[1:]]
+    if not any(hit):
         return None
-    alt = " ".join(DEFECT_AS if t == DEFECT_LIT else t for t in case.split(" "))
+    alt = " ".join([toks[0]] + [DEFECT_AS if h else t for t, h in zip(toks[1:], hit)])
     res = judge_core(alt, impl)
     return res if all(site == KNOWN_NEG_SITE for _, _, site in res[4]) else None
 
@@ -286,8 +446,12 @@ def run(r):
     r.rule = ("boundary zoo (0, +-1, +-2^31, +-2^53+-1, +-2^63+-1, 2^64+-1, +-2^127+-1, 2^128-1, ...) squared x 6 binary operators "
               "x literal and i64/u64/i128/u128 variable forms, unary minus on the zoo in every form, random pairs biased to the "
               "2^63/2^64/2^127/2^128 neighbourhoods (half targeted so that the exact result lands within 2 of an overflow edge), "
-              "comparisons int/int, int/float, float/float, and // and % with float operands; a case is non-trivial when it is "
-              "distinct and the exact result is defined")
+              "comparisons int/int, int/float, float/float, and // and % with float operands; every literal also re-spelled "
+              "(hex/octal/binary with either prefix case, `_` separators, leading zeros, bare or parenthesised minus, floats in "
+              "exponent / .0 notation) with all spellings of the same operands required to agree; the tokenizer alone on those "
+              "spellings, edge texts and random texts against the Lean model of eat_number; bool / i8..u32 / isize / usize / "
+              "serde-passed operands; abs/int/float/round/sum filters and odd/even/divisibleby tests against the operators; "
+              "a case is non-trivial when it is distinct and the exact result is defined")
     r.assumptions = ["Rust's i128::checked_add/sub/mul/pow/div_euclid/rem_euclid return the exact result or None (std contract)",
                      "float arithmetic and int/float comparison are judged by the exact rational oracle, not by a Lean theorem"]
     r.regen_tables()
@@ -308,7 +472,20 @@ def run(r):
     n_model = 0
     for i, line in enumerate(lines):
         case, impl = line.split("\t")
-        stream, op, outcome, allint = judge(r, case, impl, width)
+        if case.startswith("lex "):
+            m = model[i].split("\t")[1] if model is not None else None
+            check_lex(r, case, case[4:], impl, m)
+            r.count(case, True)
+            r.hist["stream"]["lex"] += 1
+            r.hist["outcome"]["lex:" + impl.split(":")[0].split("@")[0]] += 1
+            n_model += 1 if m is not None else 0
+            continue
+        try:
+            stream, op, outcome, allint = judge(r, case, impl, width)
+        except BadCase as e:
+            if len(r.broken) < 5:
+                r.broken.append(f"{e} (case `{case}`)")
+            continue
         r.count(case, outcome not in ("zero-divisor",))
         r.hist["stream"][stream] += 1
         r.hist["op"][op] += 1
@@ -342,6 +519,10 @@ def replay(r, path):
         model = r.driver("drive_c08", out)
         print("model / Lean Int spec:", model[0].split("\t")[1:] if model else None)
         print("python spec:", py_spec(case))
-        r2 = type("R", (), {"oracle_failure": lambda self, c, w, s=None: print("oracle:", w, "[site %s]" % s)})()
-        judge(r2, case, out.strip().split("\t")[1], {})
+        r2 = type("R", (), {"oracle_failure": lambda self, c, w, s=None: print("oracle:", w, "[site %s]" % s),
+                            "model_disagreement": lambda self, c, i, m: print("model disagrees:", i, "vs", m)})()
+        if case.startswith("lex "):
+            check_lex(r2, case, case[4:], out.strip().split("\t")[1], model[0].split("\t")[1] if model else None)
+        else:
+            judge(r2, case, out.strip().split("\t")[1], {})
     return 0
